@@ -39,7 +39,7 @@ METHODS = ["quantile", "bc", "bca"]
 
 
 def n_cases(tier):
-    return 400 if tier == "quick" else 8000
+    return 3200 if tier == "quick" else 25600
 
 
 def gen_values(rng, n):
